@@ -424,10 +424,14 @@ static void scen_data(void) {
 	});
 	// every client gets a different object built on the same buffer
 	for (int i = 0; i < L.nclients; i++) {
-		switch ((i + (int)g_n(4)) % 4) {
+		switch ((i + (int)g_n(5)) % 5) {
 		case 0: DD.d[i] = base; dispatch_retain(base); break;
 		case 1: DD.d[i] = dispatch_data_create_subrange(base, 3 + g_n(10), 10 + g_n(40)); break;
 		case 2: { dispatch_data_t s = dispatch_data_create_subrange(base, g_n(20), 5 + g_n(20)); DD.d[i] = dispatch_data_create_concat(s, base); dispatch_release(s); break; }
+		case 4: {   // a subrange spanning adjacent records of a composite that refer to the same leaf (round 11, C17k)
+			dispatch_data_t cc = dispatch_data_create_concat(base, base); size_t k = 1 + g_n(20), len = 2 * k;
+			if (g_chance(1, 2)) { dispatch_data_t c3 = dispatch_data_create_concat(cc, base); dispatch_release(cc); cc = c3; len = DD.n + 2 * k; }
+			DD.d[i] = dispatch_data_create_subrange(cc, DD.n - k, len); dispatch_release(cc); break; }
 		default: { dispatch_data_t s = dispatch_data_create_subrange(base, 10, 30), t = dispatch_data_create_subrange(s, 2, 9); DD.d[i] = dispatch_data_create_concat(t, s); dispatch_release(s); dispatch_release(t); break; }
 		}
 	}
